@@ -381,6 +381,27 @@ PROPS["C19"] = {
     "thorough": {"scale": 6, "shards": 16, "timeout": 1500},
 }
 
+PROPS["C20"] = {
+    "pkg": "c20",
+    "race": True,
+    "technique": "generated concurrent request batches with harness-gated handler bodies under the race detector: per-request identity checks before and after parking, response, log-attribute and status oracles; deterministic trace check for Wrap order",
+    "level_text": ("Exploration of schedules where the harness owns the overlap pattern: each request of a generated batch (2-12 requests, unique method, URL, host, "
+                   "RemoteAddr, RequestURI, headers, body and context value) verifies its own fields inside the wrapped handler, parks on its own gate, verifies them again, "
+                   "logs through the context logger and writes its response; the harness starts and releases requests in a rapid-drawn order, waiting for arrival and for "
+                   "completion, so pooled requests, attribute slices and response writers are returned and re-taken while other requests are in flight. Oracles: identity "
+                   "before and after the gate, the client receives exactly status/headers/body of its invocation, every log record carries one request's host, method, raddr "
+                   "and request_uri, exactly one started and one finished record per request with code = status set (200 if none), no race report. The base logger's "
+                   "handler retains the attribute slice it gets in WithAttrs (permitted by slog), so early reuse of the pooled slice is observable. Wrap order is checked "
+                   "for 0-8 tagging middlewares with an enter/leave trace. A barrier-start free-running driver adds ungated concurrency."),
+    "level_note": "Trusted: net/http/httptest recorders, the race detector. Handlers write the header before the body (a body-first handler makes 'the status it set' ambiguous). Thread interleavings inside the middleware are sampled, not enumerated.",
+    "rule": ("Non-trivial: a batch in which at least two requests were parked simultaneously and at least one request was started after another had finished (pool reuse "
+             "while others are live); distinct = distinct batch (request behaviours + script)."),
+    "assumptions": [],
+    "expect_classes": {"batch:nontrivial": ("c20.batch", 0.5)},
+    "quick": {"scale": 1, "shards": 1, "timeout": 600},
+    "thorough": {"scale": 4, "shards": 8, "timeout": 1500},
+}
+
 ALL_IDS = ["C%02d" % i for i in range(1, 21)]
 NOT_APPLICABLE = [
     {"property_id": pid, "reason": "check not built yet in this revision of the harness (work in progress; see DESIGN.md section 9)"}
